@@ -11,6 +11,9 @@ def main(tier, seed):
     for a, b in PAIRS:
         for cap in ((1, None) if tier == "quick" else (1, 2, None)):
             jobs.append(("props.multi", "isolation", ("C13", a, b, cap, "fifo" if tier == "quick" else "explore", 40 if tier == "quick" else 1500)))
+    # a process that finishes by itself while the other one is still being launched, default retention, every schedule
+    for a, b in (("auto", "one_irq"), ("auto", "seq2")):
+        jobs.append(("props.multi", "isolation", ("C13", a, b, 1, "explore", 120 if tier == "quick" else 3000, False)))
     c.run_jobs(jobs)
     return c.finish(
         rule="self-composition inside one path: each process alone (reference) and both together in one engine with a cache of capacity 1 / default, any live process evicted under "
